@@ -304,7 +304,8 @@ static void check_try_parked() {
   // A task parked inside a non-blocking ("try") API call while nobody else is inside a library call and
   // no timer can release it: its completion needs a NEW api call by someone -> it blocks (3.2).
   for (Task *t : R->tasks) {
-    if (t->state != T_BLOCKED || !t->parked_in_try) continue;
+    if (!t->parked_in_try) continue;
+    if (!(t->state == T_BLOCKED || (t->state == T_RUNNABLE && t->bkind == B_SPIN))) continue;
     bool someone_in_flight = false;
     for (Task *o : R->tasks) {
       if (o == t || o->state == T_FINISHED || o->state == T_DEAD) continue;
@@ -464,7 +465,15 @@ void spin_block(const void *addr) {
   me->bkind = B_SPIN;           // stays RUNNABLE but not enabled
   me->spin_addr = addr;
   R->res.spin_blocks++;
+  // a non-blocking ("try") call that polls one location until somebody else writes it is waiting, just like a parked one
+  bool in_try = me->api_depth > 0 && me->api_nonblocking;
+  if (in_try) {
+    me->parked_in_try = true; R->any_try_parked = true;
+    check_try_parked();
+    if (R->aborted) { switch_to_main_abandon(); abort(); }
+  }
   run_scheduler_from(me);
+  if (in_try) me->parked_in_try = false;
   if (R->aborted) { switch_to_main_abandon(); abort(); }
 }
 
